@@ -21,7 +21,7 @@ ASSUMPTIONS = [
     "a keyword given twice keeps the position of its last occurrence (it keeps its last value)",
 ]
 TIERS = {
-    "quick": {"examples": 5000, "faults": 2500, "budget_s": 110},
+    "quick": {"examples": 8000, "faults": 5000, "budget_s": 110},
     "thorough": {"examples": 100000, "faults": 30000, "budget_s": 1800},
 }
 PARTS = ["search"]
@@ -236,7 +236,7 @@ def search(acc: Acc, tier, shard, nshards):
         r = render.render(doc, surf)
         case = {"doc": doc, "text": r.text}
         try:
-            if counter["i"] % 50 == 0:
+            if ch.chance(1, 50):
                 import mappyfile
 
                 d = mappyfile.loads(r.text, include_position=True, expand_includes=False)
@@ -281,6 +281,57 @@ def search(acc: Acc, tier, shard, nshards):
         return check_fault_position(doc, r, d, f, acc)
 
     hyp_search(acc, ID, "fault_locations", shard, cfg["faults"] // nshards, body_faults, tier)
+
+    def body_points(data):
+        """a SYMBOL with several POINTS blocks (multipart points are a FEATURE thing: every pair of every block is a
+        schema error) - each message must carry the position of the POINTS keyword of the block the pair is in"""
+        ch = model.Ch(data.draw)
+        g = model.Gen(ch, vprof)
+        sym = {"t": "symbol", "items": [["attr", "name", "str", "s"]]}
+        for _ in range(ch.int(2, 4)):
+            sym["items"].insert(ch.int(0, len(sym["items"])), ["pairs", "points", g.pairs(1, 3)])
+        kind = ch.choice(["root", "map", "symbolset"])
+        doc = [sym] if kind == "root" else [{"t": kind, "items": [["obj", {"t": "symbol", "items": []}], ["obj", sym]]}]
+        r = render.render(doc, render.Surface(ch) if ch.chance(2, 3) else None)
+        try:
+            d = W.loads(r.text, position=True)
+        except Exception as e:
+            return [Discrepancy(f"load:{type(e).__name__}", f"document rejected: {e!s:.120}", {"text": r.text})]
+        case = {"doc": doc, "text": r.text, "fault": {"kind": "repeated_points", "dpath": [], "key": "points"}}
+        acc.case([doc, r.text], True, sample={"text": r.text[:400]} if len(acc.samples) < 3 else None)
+        acc.cls("fault:repeated_points")
+        return check_repeated_points(doc, r, d, case)
+
+    hyp_search(acc, ID, "repeated_points", shard, max(20, cfg["faults"] // nshards // 5), body_points, tier)
+
+
+def check_repeated_points(doc, r, d, case):
+    import collections
+
+    W = env.Workers.get()
+    root = doc[0]["t"]
+    try:
+        msgs = W.validator().validate(d, schema_name=root)
+    except Exception as ex:
+        return [Discrepancy(f"raises:{type(ex).__name__}:repeated_points", f"validate raised {type(ex).__name__}: {ex!s:.100}", case)]
+    # expected: one message per pair, at the position of the POINTS keyword of its block
+    exp = collections.Counter()
+    for t in r.tokens:
+        pass
+    idx = expected_index(doc, r.tokens)
+    for mpath, e in idx.items():
+        o = doc[0]
+        for i in mpath[1:]:
+            o = o["items"][i][1]
+        blocks = [(i, it) for i, it in enumerate(o["items"]) if it[0] == "pairs" and it[1] == "points"]
+        if o["t"] == "symbol" and len(blocks) >= 2:
+            for i, it in blocks:
+                tk = e["items"][i]["key"]
+                exp[(tk.line, tk.col)] += len(it[2])
+    got = collections.Counter((m.get("line"), m.get("column")) for m in msgs if m["message"].endswith(" POINTS"))
+    if got != exp:
+        return [Discrepancy("location:repeated_points", f"messages for the pairs of repeated POINTS blocks carry positions {dict(got)}, the blocks' POINTS keywords are at {dict(exp)} (one message per pair)", case)]
+    return []
 
 
 def check_fault_position(doc, r, d, f, acc=None):
@@ -330,6 +381,10 @@ def replay(case):
             o[f["key"]] = 1
         elif f["kind"] == "missing_required":
             o.pop(f["key"], None)
+        elif f["kind"] == "repeated_item":
+            o[f["key"]][f["occurrence"]] = eval(f["value"], {"__builtins__": {}}, {})
+        elif f["kind"] == "repeated_points":
+            return check_repeated_points(doc, r, d, case)
         else:
             o[f["key"]] = eval(f["value"], {"__builtins__": {}}, {})
         return check_fault_position(doc, r, d, f)
